@@ -184,6 +184,40 @@ func VH_C01_bounds_shortcuts() {
 	vReach("end")
 }
 
+// (2b) box ∩ box is answered without the clipper: pointwise, for any point z
+// off both boundaries, z is in the result iff it is in both boxes; an empty
+// result is nil and a non-nil result has area.
+func VH_C01_bounds_bounds() {
+	a := vPolygonal(2).(*Bounds)
+	b := vPolygonal(2).(*Bounds)
+	z := vFloatOrdPt()
+	vAssume(vAnd(z.X != a.Min.X, z.X != a.Max.X, z.Y != a.Min.Y, z.Y != a.Max.Y))
+	vAssume(vAnd(z.X != b.Min.X, z.X != b.Max.X, z.Y != b.Min.Y, z.Y != b.Max.Y))
+	inA := vAnd(a.Min.X < z.X, z.X < a.Max.X, a.Min.Y < z.Y, z.Y < a.Max.Y)
+	inB := vAnd(b.Min.X < z.X, z.X < b.Max.X, b.Min.Y < z.Y, z.Y < b.Max.Y)
+	rec := &vCall{}
+	vHookConstruct(rec, polyclip.Polygon{})
+	res := a.Intersection(b)
+	polyclip.VHook_Construct = nil
+	if rec.n > 0 {
+		vAssert(len(rec.subject) == 1 && len(rec.subject[0]) == 4 && len(rec.clipping) == 1 && len(rec.clipping[0]) == 4, "boxes-sent-as-rectangles")
+		vReach("end")
+		return
+	}
+	if res == nil {
+		vAssert(!vAnd(inA, inB), "nil-only-if-no-common-point")
+	} else {
+		r, ok := res.(*Bounds)
+		vAssert(ok, "box-result-is-bounds")
+		vAssert(vAnd(r.Min.X < r.Max.X, r.Min.Y < r.Max.Y), "non-nil-result-has-area")
+		inR := vAnd(r.Min.X < z.X, z.X < r.Max.X, r.Min.Y < z.Y, z.Y < r.Max.Y)
+		onR := vOr(z.X == r.Min.X, z.X == r.Max.X, z.Y == r.Min.Y, z.Y == r.Max.Y)
+		vAssert(!onR, "result-boundary-within-operand-boundaries")
+		vAssert(inR == vAnd(inA, inB), "point-in-result-iff-in-both")
+	}
+	vReach("end")
+}
+
 // (3) the real clipper on operands it answers without sweeping: one operand
 // without rings, or bounding boxes that do not overlap. The true result is
 // known: A∩B = ∅, A∪B = A+B, A−B = A, A xor B = A+B.
@@ -328,6 +362,38 @@ func VH_C14_clip_marshalling() {
 			}
 		}
 	}
+	vReach("end")
+}
+
+// no shortcut may answer without the clipper: operands on a small grid (mode
+// G), so that whatever arithmetic a would-be shortcut performs is decided too.
+// The polygon is a square with a square hole; the line has two free vertices.
+func VH_C14_clip_no_shortcut() {
+	const w = 4
+	l := LineString{vGridPt(w, 1), vGridPt(w, 1)}
+	pg := Polygon{
+		{{X: -3, Y: -3}, {X: 3, Y: -3}, {X: 3, Y: 3}, {X: -3, Y: 3}},
+		{{X: -1, Y: -1}, {X: 1, Y: -1}, {X: 1, Y: 1}, {X: -1, Y: 1}},
+	}
+	var recv Linear = l
+	if vChoose(2) == 1 {
+		recv = MultiLineString{l}
+	}
+	var arg Polygonal = pg
+	if vChoose(2) == 1 {
+		arg = MultiPolygon{pg}
+	}
+	rec := &vCall{}
+	vHookConstruct(rec, polyclip.Polygon{})
+	res := recv.Clip(arg)
+	polyclip.VHook_Construct = nil
+	vAssert(rec.n == 1, "clipper-called-once")
+	if rec.n == 1 {
+		vAssert(vSameContours(rec.subject, []Path{Path(l)}), "line-sent-as-one-contour")
+		vAssert(vSameContours(rec.clipping, vAllRings(arg)), "all-polygon-rings-sent")
+	}
+	out, ok := res.(MultiLineString)
+	vAssert(ok && len(out) == 0, "result-is-what-the-clipper-returned")
 	vReach("end")
 }
 
